@@ -15,6 +15,7 @@ from __future__ import annotations
 import itertools
 import json
 import random
+from typing import Any
 
 from automata.base.exceptions import InvalidStateError, SymbolMismatchError
 from automata.fa.dfa import DFA
@@ -136,8 +137,8 @@ def do_binop(ctx: Ctx, opname: str, A: DFA, B: DFA, retain: bool, minify: bool, 
         ctx.corr_diff("DFA_BINOP", replay, "ok", line)
         return
     mod = parse_canon(Toks(line[3:]))
-    ra = renderer_atoms(stA, A._get_trap_state_id())
-    rb = renderer_atoms(stB, B._get_trap_state_id())
+    ra = renderer_atoms(stA)
+    rb = renderer_atoms(stB)
     rend = None
     if retain:
         rend = render_block(render_pair(ra, rb)) if minify else render_pair(ra, rb)
@@ -168,7 +169,7 @@ def do_complement(ctx: Ctx, A: DFA, retain: bool, minify: bool, origin: str, use
     R = res[1]
     ok = check_result_props(ctx, f"complement(retain_names={retain}, minify={minify})", [A], R, lambda x: not x, replay)
     ctx.case(("compl", retain, minify, encA) if ok and nontrivial([A], R) else None)
-    trap_name = A._get_trap_state_id()
+    trap_name = _added_state(A, R, blocks=bool(minify and retain))
     trap = stA(trap_name)  # foreign id
     line = drv.ask(toks("DFA_COMPLEMENT", retain, minify, ctx.rng.randrange(1000), encA, trap))
     if not line.startswith("ok "):
@@ -183,6 +184,18 @@ def do_complement(ctx: Ctx, A: DFA, retain: bool, minify: bool, origin: str, use
         imp = dfa_plain(R, stA, sy)
     if imp != mod and ok:
         ctx.corr_diff("DFA_COMPLEMENT", replay, imp, mod)
+
+
+def _added_state(A: DFA, R, blocks: bool = False) -> Any:
+    """The name the code chose for the state it added (complement / to_complete of a partial DFA):
+    the one state of the result that is neither a state nor a row key of the operand.  The model takes this name as
+    an input — which fresh name is chosen is not specified, only that it is fresh — so the harness
+    does not depend on how (or in which private helper) the code computes it."""
+    atoms = set()
+    for q in getattr(R, "states", ()):
+        atoms.update(q if blocks and isinstance(q, frozenset) else (q,))     # minify + retain_names: blocks
+    extra = [q for q in atoms if q not in A.states and q not in A.transitions]
+    return extra[0] if len(extra) == 1 else ("<no added state>",)
 
 
 @guarded
@@ -221,8 +234,8 @@ def do_to_complete(ctx: Ctx, A: DFA, mode: str, origin: str):
     ctx.stat("to_complete_" + mode)
     ctx.stat(origin)
     if mode == "default":
-        trap_name, custom = A._get_trap_state_id(), False
         res = call(lambda: A.to_complete())
+        trap_name, custom = _added_state(A, res[1] if res[0] == "ok" else None), False
     elif mode == "custom_fresh":
         trap_name, custom = ("trap", len(A.states)), True
         res = call(lambda: A.to_complete(trap_name))
